@@ -1,1 +1,193 @@
-// harnesses for module chunked_reader (included under cfg(kani))
+// C05 (and C01 value-exactness) on the chunk-size parser and the chunk decoder's own state.
+
+include!("hmacro.rs");
+
+mod verif_chunked {
+    use super::*;
+    use crate::verif::{hex_val, Fault, Script, Seg};
+    use std::io::BufReader;
+
+    fn is_ws(b: u8) -> bool {
+        b == b' ' || (b >= 9 && b <= 13)
+    }
+
+    /// Reference for parse_chunk_size on ASCII input: text before the first ';', surrounding
+    /// white space removed, optional '+', then 1..16 hex digits.
+    fn reference(line: &[u8]) -> Option<usize> {
+        let mut end = 0;
+        while end < line.len() && line[end] != b';' {
+            end += 1;
+        }
+        let mut a = 0;
+        while a < end && is_ws(line[a]) {
+            a += 1;
+        }
+        let mut b = end;
+        while b > a && is_ws(line[b - 1]) {
+            b -= 1;
+        }
+        if a < b && line[a] == b'+' {
+            a += 1;
+        }
+        if a == b {
+            return None;
+        }
+        let mut v: usize = 0;
+        let mut i = a;
+        while i < b {
+            match hex_val(line[i]) {
+                Some(d) => {
+                    if v > (usize::MAX >> 4) {
+                        return None;
+                    }
+                    v = (v << 4) | d;
+                }
+                None => return None,
+            }
+            i += 1;
+        }
+        Some(v)
+    }
+
+    /// every byte string of length N: no panic; on ASCII input the result equals the reference
+    fn parse_all<const N: usize>() {
+        let line: [u8; N] = kani::any();
+        let r = parse_chunk_size(&line);
+        let mut ascii = true;
+        let mut i = 0;
+        while i < N {
+            if line[i] >= 0x80 {
+                ascii = false;
+            }
+            i += 1;
+        }
+        if ascii {
+            match (&r, reference(&line)) {
+                (Ok(v), Some(w)) => assert!(*v == w, "C05/C01: chunk size parsed to a wrong value"),
+                (Ok(_), None) => assert!(false, "C05: malformed chunk size accepted"),
+                (Err(_), Some(_)) => assert!(false, "C01: well-formed chunk size rejected"),
+                (Err(_), None) => {}
+            }
+        }
+        kani::cover!(N == 0 || r.is_ok(), "must: some input parses");
+        kani::cover!(r.is_err(), "must: some input is rejected");
+        std::mem::forget(r);
+    }
+
+    verif_harness!(c05_q_parse_chunk_size_len0, 12, { parse_all::<0>() });
+    verif_harness!(c05_q_parse_chunk_size_len1, 12, { parse_all::<1>() });
+    verif_harness!(c05_q_parse_chunk_size_len2, 12, { parse_all::<2>() });
+    verif_harness!(c05_q_parse_chunk_size_len3, 12, { parse_all::<3>() });
+    verif_harness!(c05_t_parse_chunk_size_len4, 12, { parse_all::<4>() });
+    verif_harness!(c05_t_parse_chunk_size_len5, 12, { parse_all::<5>() });
+
+    /// 16 / 17 hex digits (all symbolic digits): exact value resp. overflow rejected, never a wrapped value
+    fn parse_long<const N: usize>() {
+        let digs: [u8; N] = kani::any();
+        let mut line = [0u8; N];
+        let mut i = 0;
+        while i < N {
+            kani::assume(digs[i] < 16);
+            line[i] = if digs[i] < 10 { b'0' + digs[i] } else { b'a' + digs[i] - 10 };
+            i += 1;
+        }
+        kani::assume(digs[0] != 0);
+        let r = parse_chunk_size(&line);
+        match (&r, reference(&line)) {
+            (Ok(v), Some(w)) => assert!(*v == w, "C05: long chunk size parsed to a wrong value"),
+            (Ok(_), None) => assert!(false, "C05: chunk size beyond 64 bits accepted (wrapped)"),
+            (Err(_), Some(_)) => assert!(false, "C01: 64-bit chunk size rejected"),
+            (Err(_), None) => {}
+        }
+        kani::cover!(true, "must: reached");
+        std::mem::forget(r);
+    }
+    verif_harness!(c05_q_parse_chunk_size_16digits, 20, { parse_long::<16>() });
+    verif_harness!(c05_q_parse_chunk_size_17digits, 20, { parse_long::<17>() });
+
+    verif_harness!(c05_qtwin_parse_chunk_size, 12, {
+        parse_all::<2>();
+        assert!(false, "twin: must be reported as FAILURE");
+    });
+
+    /// A chunk that merely *declares* a huge size must not make the decoder allocate it: the refill
+    /// buffer never exceeds MAX_BUFFER_LEN (hook H3: 4 under Kani, 64 KiB in production), whatever
+    /// the declared size, and the truncated body ends in an error.
+    fn huge_declared(size_line: &[u8], avail: usize) {
+        let mut wire = [0u8; crate::verif::WIRE_CAP];
+        let mut n = 0;
+        while n < size_line.len() {
+            wire[n] = size_line[n];
+            n += 1;
+        }
+        wire[n] = b'\r';
+        wire[n + 1] = b'\n';
+        n += 2;
+        let mut i = 0;
+        while i < avail {
+            wire[n] = kani::any();
+            n += 1;
+            i += 1;
+        }
+        let mut script = Script::new(wire, n, Seg::Whole, Fault::Eof);
+        let mut r = ChunkedReader::new(BufReader::with_capacity(8, script.handle()));
+        let mut buf = [0u8; 8];
+        let mut delivered = 0;
+        let mut saw_err = false;
+        let mut k = 0;
+        while k < avail + 3 {
+            match r.read(&mut buf) {
+                Ok(m) => {
+                    assert!(!(m == 0 && !saw_err), "C02: truncated huge chunk reported as complete");
+                    delivered += m;
+                }
+                Err(e) => {
+                    std::mem::forget(e);
+                    saw_err = true;
+                }
+            }
+            assert!(r.buffer.len() <= crate::verif::MAX_BUFFER_LEN, "C05: refill buffer grew beyond its limit");
+            assert!(r.buffer.capacity() <= 2 * crate::verif::MAX_BUFFER_LEN + 132, "C05: allocation proportional to the declared chunk size");
+            k += 1;
+        }
+        assert!(delivered <= avail, "C05: more bytes delivered than arrived");
+        assert!(saw_err, "C05/C02: truncated huge chunk: no error");
+        kani::cover!(delivered == (avail / crate::verif::MAX_BUFFER_LEN) * crate::verif::MAX_BUFFER_LEN, "must: full buffers delivered");
+        std::mem::forget(r);
+    }
+    verif_harness!(c05_q_huge_2p31, 40, { huge_declared(b"80000000", 6) });
+    verif_harness!(c05_q_huge_2p63, 40, { huge_declared(b"8000000000000000", 9) });
+    verif_harness!(c05_q_huge_max, 40, { huge_declared(b"ffffffffffffffff", 4) });
+    verif_harness!(c05_t_huge_2p62_lz, 40, { huge_declared(b"004000000000000000", 13) });
+
+    /// 2^64 as declared size: rejected
+    verif_harness!(c05_q_huge_2p64_rejected, 40, {
+        let mut script = Script::from_slice(b"10000000000000000\r\nabcd\r\n0\r\n\r\n", Seg::Whole, Fault::Eof);
+        let mut r = ChunkedReader::new(BufReader::with_capacity(64, script.handle()));
+        let mut buf = [0u8; 8];
+        let x = r.read(&mut buf);
+        assert!(x.is_err(), "C05: chunk size 2^64 accepted");
+        kani::cover!(true, "must: reached");
+        std::mem::forget(x);
+        std::mem::forget(r);
+    });
+
+    /// endless chunk-size line: rejected after at most 128 bytes of it were buffered
+    verif_harness!(c05_q_endless_size_line, 20, {
+        let wire = [b'1'; crate::verif::WIRE_CAP];
+        // the transport serves the same 64 bytes over and over: an endless line
+        let mut script = Script::new(wire, crate::verif::WIRE_CAP, Seg::Whole, Fault::Eof);
+        script.endless = true;
+        let mut r = ChunkedReader::new(BufReader::with_capacity(16, script.handle()));
+        // read_chunk_size is the first thing fill_buf does on a fresh reader; calling it directly
+        // keeps the (infeasible, but not constant-foldable) continuation into resize/read_exact
+        // out of the symbolic execution
+        let x = r.read_chunk_size();
+        assert!(x.is_err(), "C05: endless chunk-size line not rejected");
+        assert!(script.total_served <= 128 + 16, "C05: unbounded input consumed for one chunk-size line");
+        assert!(r.buffer.capacity() <= 256, "C05: chunk-size line buffered without bound");
+        kani::cover!(true, "must: reached");
+        std::mem::forget(x);
+        std::mem::forget(r);
+    });
+}
